@@ -38,7 +38,9 @@ MANIFEST = dict(
          'written from random scripts over structs/unions/services/delimited types: exact bytes and selected template; built-in c/cpp/py/html templates: recorded chunk streams '
          'replayed through the model, exact bytes) over whole namespace / dependency-closed subsets / permuted order / second '
          'runs / other-option generators / cleared caches / a REDEFINED variant of the namespace / every type rendered first by a new '
-         'generator, in one interpreter and against new interpreters.',
+         'generator / ONE generator called repeatedly with different per-call arguments (omit_serialization_support, '
+         'embed_auditing_info, dry run) compared with a new generator given the same arguments, in one interpreter and against '
+         'new interpreters; the inventory also records whether a memoised VALUE is modified by a caller.',
     note='Trusted: Coq kernel; T2 translators (pyfun_tr.py, gen_c10.py); extraction (ExtrOcamlBasic only) + ocaml/c10_driver.ml; '
          'the signature of `render` (a template sees process state only through the unique-name generator and memoised pure '
          'methods) is an assumption, tested by the byte comparison of real runs, not proved. Namespace (__init__/index) files '
@@ -270,6 +272,15 @@ def builtin_space(rng, extra: int) -> Space:
     # float16, fixed and variable arrays of primitives and of (delimited) composites, nested composites
     sp.add('', 'Mix', 'float16 h\nuint5 s\ntruncated uint5 t\nvoid3\nint7 i\n%s[<=2] dl\nfloat16[3] hs\n%s[2] fp\nint12[<=3] vi\n@extent 8192\n'
            % (leaf, prim), [leaf, prim])
+    # documentation comments at every place the templates re-flow them (type, field, constant, union field: different
+    # indents), with URLs and with long lines made of hyphenated words that must be wrapped (C++ block_comment / textwrap)
+    hy = ' '.join(['the-quick-brown-fox-jumps-over-the-lazy-dog', 'state-of-the-art', 'well-known', 'end-to-end', 'peer-to-peer',
+                   'multi-master-redundant-bus', 'x'] * 4)
+    url = 'See https://opencyphal.org/specification/Cyphal_Specification.pdf and ftp://a.example/c-d-e for the normative-text.'
+    sp.add('doc', 'AUrl', '# %s\n# plain second line\nuint8 a\n# %s\nuint8 K = 1\n# %s\nfloat32 f\n# short\n@sealed\n' % (url, url, url), [])
+    sp.add('doc', 'BHyph', '# %s\nuint8 a\n# %s\nuint16 KK = 2\n# %s\nfloat32 f\n# short-doc\n@sealed\n' % (hy, hy, hy), [])
+    sp.add('doc', 'CUrlU', '# %s\n@union\nuint8 a\n# %s\nuint16 b\n# %s\n@sealed\n' % (url, url, url), [])
+    sp.add('doc', 'DHyphU', '# %s\n@union\nuint8 a\n# %s\nuint16 b\n# %s\n@sealed\n' % (hy, hy, hy), [])
     parta = sp.add('', 'PartA', 'uint8[2] a\n@sealed\n', [])
     partb = sp.add('', 'PartB', 'uint8[2] b\n@sealed\n', [])
     holder = sp.add('', 'Holder', '%s part\nuint8 tail\n@sealed\n' % parta, [parta])
@@ -742,8 +753,8 @@ def line_up(h: Hist, out: typing.List[dict]) -> typing.Tuple[typing.List[dict], 
             g = h.gens[gid]
             ops.append(('run', gid, [g['prefix'] + k for k in r['order']], st.get('a', 0), int(bool(st.get('dry')))))
             if st.get('dry'):
-                if r.get('files'):
-                    errs.append('run: dry run wrote files')
+                if r.get('files') or r.get('dry_touched'):
+                    errs.append('run: generate_all(is_dryrun=True) created or rewrote %s' % (r.get('dry_touched') or sorted(r.get('files')))[:3])
                 continue
             for k in r['order']:
                 entries.append({'gid': gid, 'cfg': g['cfg'], 'ecfg': g['cfg'] * 16 + st.get('a', 0), 'args': st.get('a', 0), 'key': k, 'mkey': g['prefix'] + k, 'text': mask_time(r['files'][k]), 'pps': g['pps'],
@@ -951,7 +962,7 @@ def main(chk: core.Check, replay: typing.Optional[str] = None) -> int:
                 stats['rejected_inputs'] = stats.get('rejected_inputs', 0) + 1
                 continue
             (bad_oracle if any(x.startswith('run:') for x in errs) else bad_model).append(
-                {'history': h.name, 'what': 'implementation raised', 'errors': errs[:3], 'job': h.job()})
+                {'history': h.name, 'what': 'generate_all raised, or a dry run wrote files', 'errors': errs[:3], 'job': h.job()})
             continue
         if m is not None and len(m['entries']) != len(entries):
             bad_model.append({'history': h.name, 'what': 'model and implementation wrote a different number of files',
